@@ -81,7 +81,7 @@ def check_other_routes(rep, cross, cap):
     for fname, kind in routes:
         ex = setup(rep.tier)
         ex.auto_havoc = True
-        ex.execute_real = [re.compile(r'^Interpreter::property_key|^PropertyKey::from_value$')]
+        ex.execute_real = [re.compile(r'^Interpreter::property_key|^PropertyKey::')]
         captured = []
 
         def cap_key(e, s, c):
